@@ -35,6 +35,9 @@ func (p propT) inLanguage() bool {
 		if t.IR != nil && ((t.IR.XMin == 2 && !t.IR.Min) || (t.IR.XMax == 2 && !t.IR.Max)) {
 			return false
 		}
+		if t.IR != nil && t.IR.Bad != 0 && (t.IR.Min || t.IR.Max) {
+			return false // bounds outside the format's range, or minimum above maximum: a semantic error
+		}
 	case "key":
 		if p.Optional && t.Ent == "primaryT" && p.Shape.Kind != "map" {
 			return false
@@ -74,6 +77,8 @@ type isoObs struct {
 	Opt3     bool
 	ErrText  string
 	Pos      []cmpb.Pos
+	NErr     int
+	AllPos   bool
 }
 
 func observeIso(content map[string]string) isoObs {
@@ -89,6 +94,13 @@ func observeIso(content map[string]string) isoObs {
 	case c.Err != nil:
 		o.ErrText = c.Err.Error()
 		o.Pos = cmpb.Positions(c.Err)
+		o.NErr = len(o.Pos)
+		o.AllPos = true
+		for _, p := range o.Pos {
+			if posProblem(p, content, mainFile) != "" {
+				o.AllPos = false
+			}
+		}
 		switch {
 		case strings.Contains(o.ErrText, "convertJ5File"):
 			o.Verdict = "VConvErr"
@@ -205,7 +217,7 @@ func runC07(cfg *vh.Config) error {
 				corpus = append(corpus, content)
 			}
 		}
-		cf.Terms = append(cf.Terms, fmt.Sprintf("CIso %s %q %s %s %s %q %s %s", p.Coq(), refFilePath, o.Verdict, coqStrList(o.Imports), coqStrList(o.Exts), o.PType, b(o.Repeated), b(o.Opt3)))
+		cf.Terms = append(cf.Terms, fmt.Sprintf("CIso %s %q %s %s %s %q %s %s %d%%nat %s", p.Coq(), refFilePath, o.Verdict, coqStrList(o.Imports), coqStrList(o.Exts), o.PType, b(o.Repeated), b(o.Opt3), o.NErr, b(o.AllPos)))
 		res.Cases = append(res.Cases, vh.CaseRec{Case: caseNo, Stream: "iso", Input: in, Impl: o})
 		if lang && o.Verdict == "VOk" && (p.Shape.Item.Rules || p.Shape.Item.LRules) {
 			res.Sample(map[string]any{"stream": "iso", "source": content[mainFile], "imports": o.Imports, "field_extensions": o.Exts}, 3)
@@ -235,6 +247,34 @@ func runC07(cfg *vh.Config) error {
 			}
 			acs = append(acs, absCase{"CService", sv.Coq(), sv.Text(), "foo/v1/service/a.p.j5s.proto", lang, lr})
 		}
+		// topics and object / oneof shells
+		msgs := func(prefix string, n int) string {
+			var sb strings.Builder
+			for i := 0; i < n; i++ {
+				fmt.Fprintf(&sb, "  message %s%d {\n    field x string\n  }\n", prefix, i)
+			}
+			return sb.String()
+		}
+		for n := 0; n <= 3; n++ {
+			acs = append(acs, absCase{fmt.Sprintf("CTopic (TPublish %d) \"\"", n), fmt.Sprintf("(TPublish %d)", n),
+				"package foo.v1\n\ntopic Thing publish {\n" + msgs("Post", n) + "}\n", "foo/v1/topic/a.p.j5s.proto", true, false})
+		}
+		for _, rr := range [][2]int{{0, 0}, {1, 0}, {0, 1}, {1, 1}} {
+			body := ""
+			if rr[0] == 1 {
+				body += "  request {\n    field x string\n  }\n"
+			}
+			if rr[1] == 1 {
+				body += "  reply {\n    field name string\n  }\n"
+			}
+			acs = append(acs, absCase{fmt.Sprintf("CTopic (TReqRes %d %d) \"j5/messaging/v1/reqres.proto\"", rr[0], rr[1]), fmt.Sprintf("(TReqRes %d %d)", rr[0], rr[1]),
+				"package foo.v1\n\ntopic Thing reqres {\n" + body + "}\n", "foo/v1/topic/a.p.j5s.proto", true, false})
+		}
+		acs = append(acs, absCase{"CTopic TUpsert \"j5/messaging/v1/upsert.proto\"", "TUpsert",
+			"package foo.v1\n\ntopic Thing upsert {\n  message UpsertThing {\n    field x string\n  }\n}\n", "foo/v1/topic/a.p.j5s.proto", true, false})
+		acs = append(acs, absCase{"CShell false false", "object", "package foo.v1\n\nobject Thing {\n  field x string\n}\n", mainProto, true, false})
+		acs = append(acs, absCase{"CShell false true", "entity object", "package foo.v1\n\nobject ThingKeys {\n  entity.entity = \"Thing\"\n  entity.part = \"KEYS\"\n  field thingId string\n}\n", mainProto, true, false})
+		acs = append(acs, absCase{"CShell true false", "oneof", "package foo.v1\n\noneof Thing {\n  option a object {\n    field x string\n  }\n}\n", mainProto, true, false})
 		obs := parallel(len(acs), "abs", caseNo,
 			func(i int) any { return map[string]any{"decl": acs[i].Coq, "files": map[string]string{mainFile: acs[i].Text}} },
 			func(i int) declObs { return observeDecl(acs[i].Text, acs[i].Path) })
@@ -248,23 +288,111 @@ func runC07(cfg *vh.Config) error {
 			switch o.Verdict {
 			case "VPanic":
 				if !a.ListReq { // the list_request panic is judged (and recorded) in the declaration stream
-					res.Fail(vh.Failure{Case: caseNo, Stream: "abs", Sig: fmt.Sprintf("C07 %s alone in a file: panic %s", a.Kind[1:], errClass(o.ErrText)), Clause: "never panics", Input: in, Got: o.ErrText})
+					res.Fail(vh.Failure{Case: caseNo, Stream: "abs", Sig: fmt.Sprintf("C07 %s alone in a file: panic %s", absKind(a.Kind), errClass(o.ErrText)), Clause: "never panics", Input: in, Got: o.ErrText})
 				}
 			case "VOther":
-				res.Fail(vh.Failure{Case: caseNo, Stream: "abs", Sig: fmt.Sprintf("C07 %s alone in a file: %s", a.Kind[1:], errClass(o.ErrText)), Clause: "generated file parses (harness expectation) / no hang", Input: in, Got: o.ErrText})
+				res.Fail(vh.Failure{Case: caseNo, Stream: "abs", Sig: fmt.Sprintf("C07 %s alone in a file: %s", absKind(a.Kind), errClass(o.ErrText)), Clause: "generated file parses (harness expectation) / no hang", Input: in, Got: o.ErrText})
 			case "VLinkErr":
-				res.Fail(vh.Failure{Case: caseNo, Stream: "abs", Sig: fmt.Sprintf("C07 %s alone in a file: link error in isolation", a.Kind[1:]), Clause: "accepted and links without depending on unrelated declarations", Input: in, Got: o.ErrText})
+				res.Fail(vh.Failure{Case: caseNo, Stream: "abs", Sig: fmt.Sprintf("C07 %s alone in a file: link error in isolation", absKind(a.Kind)), Clause: "accepted and links without depending on unrelated declarations", Input: in, Got: o.ErrText})
 			case "VConvErr":
 				if a.InLang {
-					res.Fail(vh.Failure{Case: caseNo, Stream: "abs", Sig: fmt.Sprintf("C07 %s of the documented language rejected (%s)", a.Kind[1:], errClass(o.ErrText)), Clause: "every package within the documented language is accepted", Input: in, Got: o.ErrText})
+					res.Fail(vh.Failure{Case: caseNo, Stream: "abs", Sig: fmt.Sprintf("C07 %s of the documented language rejected (%s)", absKind(a.Kind), errClass(o.ErrText)), Clause: "every package within the documented language is accepted", Input: in, Got: o.ErrText})
 				}
 			case "VOk":
 				if len(corpus) < 500 {
 					corpus = append(corpus, content)
 				}
 			}
-			cf.Terms = append(cf.Terms, fmt.Sprintf("%s %s %s %s %s", a.Kind, a.Coq, o.Verdict, coqStrList(o.Imports), coqStrList(o.Exts)))
+			if strings.HasPrefix(a.Kind, "CTopic") || strings.HasPrefix(a.Kind, "CShell") {
+				cf.Terms = append(cf.Terms, fmt.Sprintf("%s %s %s %s", a.Kind, o.Verdict, coqStrList(o.Imports), coqStrList(o.Exts)))
+			} else {
+				cf.Terms = append(cf.Terms, fmt.Sprintf("%s %s %s %s %s", a.Kind, a.Coq, o.Verdict, coqStrList(o.Imports), coqStrList(o.Exts)))
+			}
 			res.Cases = append(res.Cases, vh.CaseRec{Case: caseNo, Stream: "abs", Input: in, Impl: o})
+			caseNo++
+		}
+	}
+
+	// ---- stream 1c: whole files of several declarations against model/CmpbDecls.v file_state / file_verdict
+	{
+		rF := cfg.R.Fork("files")
+		pool := isoMatrix(rF, false)
+		nF := cfg.Scale(90, 1500)
+		type fileCase struct {
+			Coq     string
+			Files   map[string]string
+			InLang  bool
+			ListReq bool
+		}
+		fcs := make([]fileCase, nF)
+		for i := range fcs {
+			c, f, l, lr := genFile(rF, pool)
+			fcs[i] = fileCase{c, f, l, lr}
+		}
+		type fobs struct {
+			Verdict              string
+			Main, Service, Topic []string
+			ErrText              string
+			Pos                  []cmpb.Pos
+		}
+		obs := parallel(nF, "file", caseNo,
+			func(i int) any { return map[string]any{"decls": fcs[i].Coq, "files": fcs[i].Files} },
+			func(i int) fobs {
+				c := compileOnce(fcs[i].Files, "foo.v1")
+				var o fobs
+				switch {
+				case c.TimedOut:
+					o.Verdict, o.ErrText = "VOther", "timeout"
+				case c.Panic != nil:
+					o.Verdict, o.ErrText = "VPanic", fmt.Sprint(c.Panic)
+				case c.Err != nil:
+					o.ErrText = c.Err.Error()
+					o.Pos = cmpb.Positions(c.Err)
+					switch {
+					case strings.Contains(o.ErrText, "convertJ5File"):
+						o.Verdict = "VConvErr"
+					case strings.HasPrefix(o.ErrText, "resolve file"):
+						o.Verdict = "VLinkErr"
+					default:
+						o.Verdict = "VOther"
+					}
+				default:
+					o.Verdict = "VOk"
+					if f := fileByPath(c.Files, mainProto); f != nil {
+						o.Main = depList(f)
+					}
+					if f := fileByPath(c.Files, "foo/v1/service/a.p.j5s.proto"); f != nil {
+						o.Service = depList(f)
+					}
+					if f := fileByPath(c.Files, "foo/v1/topic/a.p.j5s.proto"); f != nil {
+						o.Topic = depList(f)
+					}
+				}
+				return o
+			})
+		for i, fc := range fcs {
+			o := obs[i]
+			in := map[string]any{"decls": fc.Coq, "files": fc.Files}
+			distinct.Add(fc.Files[mainFile])
+			res.Count("file")
+			res.Count("file_" + o.Verdict)
+			switch o.Verdict {
+			case "VPanic":
+				if !fc.ListReq {
+					res.Fail(vh.Failure{Case: caseNo, Stream: "file", Sig: "C07 file of several declarations: panic " + errClass(o.ErrText), Clause: "never panics", Input: in, Got: o.ErrText})
+				}
+			case "VOther":
+				res.Fail(vh.Failure{Case: caseNo, Stream: "file", Sig: "C07 file of several declarations: " + errClass(o.ErrText), Clause: "generated file parses (harness expectation) / no hang", Input: in, Got: o.ErrText})
+			case "VLinkErr":
+				res.Fail(vh.Failure{Case: caseNo, Stream: "file", Sig: "C07 file of several declarations: link error (" + errClass(o.ErrText) + ")", Clause: "accepted and links", Input: in, Got: o.ErrText})
+			case "VConvErr":
+				if fc.InLang && !fc.ListReq {
+					res.Fail(vh.Failure{Case: caseNo, Stream: "file", Sig: "C07 file of in-language declarations rejected (" + errClass(o.ErrText) + ")", Clause: "every package within the documented language is accepted", Input: in, Got: o.ErrText})
+				}
+				checkPositions(res, caseNo, "file", "file conversion error", o.Pos, fc.Files, mainFile, in)
+			}
+			cf.Terms = append(cf.Terms, fmt.Sprintf("CFile %s %q %s %s %s %s", fc.Coq, refFilePath, o.Verdict, coqStrList(o.Main), coqStrList(o.Service), coqStrList(o.Topic)))
+			res.Cases = append(res.Cases, vh.CaseRec{Case: caseNo, Stream: "file", Input: in, Impl: o})
 			caseNo++
 		}
 	}
@@ -306,7 +434,7 @@ func runC07(cfg *vh.Config) error {
 			if strings.HasPrefix(c.Err.Error(), "resolve file") {
 				kind = "link error in isolation"
 			}
-			res.Fail(vh.Failure{Case: caseNo, Stream: "decl", Sig: fmt.Sprintf("C07 decl %s: %s (%s)", d.Name, kind, errClass(c.Err.Error())), Clause: "every package within the documented language is accepted and links", Input: in, Got: c.Err.Error()})
+			res.Fail(vh.Failure{Case: caseNo, Stream: "decl", Sig: fmt.Sprintf("C07 decl %s: %s (%s)", d.Name, kind, truncate(strings.TrimPrefix(errClass(c.Err.Error()), "loadPackage I: loadLocalPackage I: "), 60)), Clause: "every package within the documented language is accepted and links", Input: in, Got: c.Err.Error()})
 		default:
 			res.Count("decl_ok")
 			corpus = append(corpus, d.Files)
@@ -464,6 +592,15 @@ func runC07(cfg *vh.Config) error {
 	}
 	res.Shards = shards
 	return res.Write(cfg.Out)
+}
+
+// absKind: "CTopic (TPublish 1) ..." -> "Topic"
+func absKind(k string) string {
+	k = strings.TrimPrefix(k, "C")
+	if i := strings.IndexByte(k, ' '); i > 0 {
+		k = k[:i]
+	}
+	return k
 }
 
 func truncate(s string, n int) string {
